@@ -94,6 +94,18 @@ where
     })
   }
 
+  /// A handle that feeds the same observers but carries no subscribe / unsubscribe hooks.
+  /// For code that is itself stored in one of the hooks: a full clone held there would keep
+  /// the subject (and everything its hooks own) alive through its own hook.
+  pub(crate) fn sink(&self) -> Subject<'a, Item> {
+    Subject {
+      observers: Arc::clone(&self.observers),
+      serial: Arc::clone(&self.serial),
+      on_subscribe: Arc::new(RwLock::new(None)),
+      on_unsubscribe: Arc::new(RwLock::new(None)),
+    }
+  }
+
   pub(crate) fn set_on_subscribe<F>(&self, f: F)
   where
     F: Fn(usize) + Send + Sync + 'a,
